@@ -11,6 +11,18 @@ def add(i, cat, tech, text, note):
 
 exec(open(os.path.join(HERE, "tools", "manifest_table.py")).read())
 
+# monitors added to many checks at once (DESIGN.md 0.2, "Schedules for the properties quantified over inputs only")
+TOGETHER = "; several requests in flight together on one object must each get what they get alone (vf/inflight.py)"
+PLACED = "; thread switch placed between library lines via sys.monitoring, the other request served in between"
+FIRST = "; the first use in a fresh process pre-empted the same way (vf/firstuse.py, one child per switch point)"
+EXTRA = {"C03": "; earlier result objects re-examined after later calls", "C04": TOGETHER, "C05": "; one response object serving two connections at the same time",
+         "C07": TOGETHER + FIRST, "C08": TOGETHER + FIRST, "C09": TOGETHER + PLACED, "C10": TOGETHER + FIRST, "C12": TOGETHER, "C13": FIRST,
+         "C14": TOGETHER + "; file replaced while a request is in flight; entity-tag sweep over (size, second) states", "C15": "; two parses with one boundary at the same time (nested sync, two async tasks)",
+         "C18": PLACED + FIRST, "C19": PLACED + FIRST, "C20": TOGETHER}
+for k, extra in EXTRA.items():
+    cat, tech, text, note, ref = CHECKS[k]
+    CHECKS[k] = (cat, tech + extra, text, note, ref)
+
 props = [json.loads(l)["id"] for l in open(os.path.join(HERE, "properties.jsonl"))]
 checks, na = [], []
 for p in props:
